@@ -138,6 +138,9 @@ def main(argv=None):
     ap.add_argument("--workers", type=int, default=int(os.environ.get("VERIF_WORKERS", "0") or 0))
     ap.add_argument("--max-runs", type=int, default=int(os.environ.get("VERIF_MAX_RUNS", "0") or 0))
     ap.add_argument("--no-evidence", action="store_true")
+    ap.add_argument("--stop-at-first", action="store_true",
+                    help="development aid (seeded-change matrix): hand out no further run indices once a violation "
+                         "that matches no known finding has come back; never used by the registered commands")
     a = ap.parse_args(argv)
     prop = a.prop
     if prop not in PROPS:
@@ -207,6 +210,8 @@ def main(argv=None):
         def more():
             if a.max_runs and next_index >= a.max_runs:
                 return False
+            if a.stop_at_first and _G.get("stop"):
+                return False
             el = time.time() - t0
             if el < budget:
                 return True
@@ -235,6 +240,11 @@ def main(argv=None):
                 total.merge(st)
                 viols.extend(vs)
                 errors.extend(er)
+                if a.stop_at_first and not _G.get("stop"):
+                    from . import findings as _f
+                    ents = _G.setdefault("entries", _f.load())
+                    if any(_f.find(ents, {"spec": sp, "violation": vj}) is None for _, sp, vj in vs):
+                        _G["stop"] = True
     explore_s = time.time() - t0
     runs = sum(e - s for s, e in covered)
 
@@ -382,7 +392,7 @@ def main(argv=None):
             print(f"HARNESS-FAULT run={idx}: {tb}", file=sys.stderr)
         print(f"HARNESS-FAULT: {len(errors)} harness error(s); see stderr")
         return 1 if exit_code == 1 else 2
-    if runs < MIN_RUNS and not a.max_runs:
+    if runs < MIN_RUNS and not a.max_runs and not a.stop_at_first:
         print(f"HARNESS-FAULT: only {runs} runs completed (floor {MIN_RUNS})")
         return 2
     return exit_code
